@@ -15,17 +15,17 @@ pub struct RecSink {
     pub lens: [usize; K],
     pub firsts: [u8; K],
     pub total: u64,
-    /// fail (hard error) on this 0-based call index
-    pub fail_at: usize,
-    /// accept only one byte on this call index (short write), once
-    pub short_at: usize,
-    /// report Interrupted on this call index, once
-    pub intr_at: usize,
+    /// the (concrete) 0-based index of the write call that misbehaves
+    pub fault_at: usize,
+    /// what happens there (symbolic data): hard error / Interrupted / at most `accept` bytes taken
+    pub fault_fail: bool,
+    pub fault_intr: bool,
+    pub fault_accept: usize,
     pub failed: bool,
 }
 impl RecSink {
     pub fn new() -> Self {
-        RecSink { calls: 0, lens: [0; K], firsts: [0; K], total: 0, fail_at: usize::MAX, short_at: usize::MAX, intr_at: usize::MAX, failed: false }
+        RecSink { calls: 0, lens: [0; K], firsts: [0; K], total: 0, fault_at: usize::MAX, fault_fail: false, fault_intr: false, fault_accept: usize::MAX, failed: false }
     }
     /// absolute position at which the write whose first byte is `tag` started
     /// (loop-free: unrolled over the K record slots so that harness unwind bounds stay small)
@@ -61,14 +61,23 @@ impl std::io::Write for RecSink {
     fn write(&mut self, buf: &[u8]) -> std::io::Result<usize> {
         let idx = self.calls;
         self.calls += 1;
-        if idx == self.fail_at {
-            self.failed = true;
-            return Err(std::io::Error::from(std::io::ErrorKind::Other));
+        let mut n = buf.len();
+        if idx == self.fault_at {
+            if self.fault_fail {
+                self.failed = true;
+                return Err(std::io::Error::from(std::io::ErrorKind::Other));
+            }
+            if self.fault_intr {
+                return Err(std::io::Error::from(std::io::ErrorKind::Interrupted));
+            }
+            if self.fault_accept < n {
+                n = self.fault_accept;
+            }
+            if n == 0 && !buf.is_empty() {
+                // a sink that takes nothing: write_all turns this into a WriteZero failure
+                self.failed = true;
+            }
         }
-        if idx == self.intr_at {
-            return Err(std::io::Error::from(std::io::ErrorKind::Interrupted));
-        }
-        let n = if idx == self.short_at && buf.len() > 1 { 1 } else { buf.len() };
         if idx < K {
             self.lens[idx] = n;
             self.firsts[idx] = if n > 0 { buf[0] } else { 0 };
